@@ -28,6 +28,7 @@ func main() {
 		fs.IntVar(&o.Of, "of", 1, "number of workers")
 		fs.Float64Var(&budget, "budget", 10, "seconds")
 		fs.IntVar(&o.MaxRuns, "max-runs", 0, "max generated plans (0: budget only)")
+		fs.IntVar(&o.From, "from", 0, "first run index")
 		fs.StringVar(&o.ReplayDir, "replay-dir", "/verif/replays", "")
 		fs.StringVar(&o.KnownPath, "known", "/verif/known_findings.json", "")
 		fs.StringVar(&o.Out, "out", "", "result file")
@@ -54,6 +55,12 @@ func main() {
 			os.Exit(3)
 		}
 		os.Exit(1) // a reproduced violation
+	case "debugshrink":
+		var seed uint64 = 1
+		var worker, idx int
+		fmt.Sscan(os.Args[3], &worker)
+		fmt.Sscan(os.Args[4], &idx)
+		fmt.Print(verifsim.DebugShrink(os.Args[2], seed, worker, idx))
 	case "show":
 		fmt.Print(verifsim.Show(os.Args[2]))
 	case "hash":
